@@ -290,7 +290,11 @@ def run_one(case):
     rec = Recorder(make_vector_fun(spec, m, n) if api == 'Jacobian' else make_scalar_fun(spec, n))
     kw = {}
     if box is not None:
-        kw['bounds'] = (box[0].copy(), box[1].copy())
+        # the container of the pair (lower, upper) rotates with the case: a tuple, a list, a (2, n) array (scipy's own
+        # examples use all three)
+        form = (n + m + j0 + case['pt']) % 3
+        pair = (box[0].copy(), box[1].copy())
+        kw['bounds'] = pair if form == 0 else (list(pair) if form == 1 else np.array(pair))
     if api == 'Jacobian':
         xin = x.copy()
         want_shape = (m, n)
@@ -315,7 +319,9 @@ def run_one(case):
         with warnings.catch_warnings():
             warnings.simplefilter('ignore')
             with np.errstate(all='ignore'):
-                obj = getattr(nds, api)(rec, step=step, method=method, **kw)
+                # built positionally (fun, step, method) for the tuple-valued extras variants, by keyword otherwise
+                obj = (getattr(nds, api)(rec, step, method, **kw) if case['extras'] in (4, 5) else
+                       getattr(nds, api)(rec, step=step, method=method, **kw))
                 out = obj(xin, *args, **kwds)
     except Exception as ex:
         info['raised'] = type(ex).__name__
